@@ -84,6 +84,17 @@ def programs(ctx: common.Ctx, n: int) -> list[dict[str, Any]]:
     miss = "import tomlib\nimport asynchatt\nimport distutil\nimport zoneinfoo\nimport graphlibb\nimport tomllibb\nimport imp_\nimport asyncore_\nx: int = ''\n"
     out.append({"files": {"main.py": miss}, "targets": ["main.py"], "flags": ["--python-version", "3.12"], "id": "misspelled312"})
     out.append({"files": {"main.py": miss}, "targets": ["main.py"], "flags": ["--python-version", "3.10"], "id": "misspelled310"})
+    # suggestion sites ("did you mean", "maybe ...?") with MANY equally similar candidates: the ranking must not fall back on
+    # set/dict iteration order (import-from, module attribute, bare name, instance attribute, keyword argument, TypedDict key)
+    names = [f"some_long_value_{i:02d}" for i in range(80)]
+    many = "".join(f"{nm}: int = {i}\n" for i, nm in enumerate(names))
+    many += "class Holder:\n" + "".join(f"    attr_long_name_{i:02d}: int = {i}\n" for i in range(70))
+    many += "def kw(*, " + ", ".join(f"param_long_name_{i:02d}: int = 0" for i in range(60)) + ") -> None: ...\n"
+    many += "from typing import TypedDict\nclass TD(TypedDict, total=False):\n" + "".join(f"    key_long_name_{i:02d}: int\n" for i in range(60))
+    use = ("import m\nfrom m import some_long_value_xx\nfrom m import Holder, kw, TD\nprint(m.some_long_value_yy)\n"
+           "Holder().attr_long_name_xx\nkw(param_long_name_xx=1)\ntd: TD = {'key_long_name_xx': 1}\n"
+           "from m import *\nprint(some_long_value_zz)\n")
+    out.append({"files": {"m.py": many, "main.py": use}, "targets": ["main.py"], "flags": [], "id": "suggestion-ties"})
     k = 0
     while len(out) < n:
         h = histgen.history(("C10", ctx.seed, k), n_steps=3, n_modules=5 + k % 4)
